@@ -976,6 +976,8 @@ func (l *lexer) lexCode(end tokenTyp) error {
 	var first = l.totals + 1
 	// macroOrUsing indicates if it has lexed the macro keyword or the using keyword.
 	var macroOrUsing bool
+	// endStatement indicates if the first token of the statement is "end".
+	var endStatement bool
 	// ident stores the index and the text of the last lexed identifier after a macro or a using keyword.
 	var ident struct {
 		index int
@@ -1379,6 +1381,7 @@ LOOP:
 						macroOrUsing = true
 						l.contexts = append(l.contexts, l.ctx)
 					case tokenEnd:
+						endStatement = true
 						if last := len(l.contexts) - 1; last >= 0 {
 							l.ctx = l.contexts[last]
 							l.contexts = l.contexts[:last]
@@ -1388,7 +1391,8 @@ LOOP:
 							l.contexts = append(l.contexts, l.ctx)
 						}
 					}
-				} else if typ == tokenUsing {
+				} else if typ == tokenUsing && !endStatement {
+					// (the "using" of "{% end using %}" does not start a using statement)
 					macroOrUsing = true
 					l.contexts = append(l.contexts, l.ctx)
 				} else if macroOrUsing && typ == tokenIdentifier && l.totals != first+1 {
